@@ -210,8 +210,8 @@ def live_templates():
 
 
 OPTION_POOL = [
-    ("timeline", ["1"]), ("depth", ["20", "40", "60", "120", "30", "1800"]), ("leeway", ["16", "20", "30", "60"]),
-    ("mup", ["-1", "4", "8", "30"]), ("abr", ["0", "1"]), ("base", ["0", "1"]), ("acodec", ["mp4a", "ec-3", "any"]),
+    ("timeline", ["1"]), ("depth", ["20", "40", "60", "120", "30", "1800", "-5", "0"]), ("leeway", ["16", "20", "30", "60"]),
+    ("mup", ["-1", "4", "8", "30", "0", "none"]), ("abr", ["0", "1"]), ("base", ["0", "1"]), ("acodec", ["mp4a", "ec-3", "any"]),
     ("events", ["ping", "scte35", "ping,scte35"]), ("patch", ["1"]),
     ("drm", ["all", "clearkey", "playready-pro", "marlin", "playready-moov", "playready-cenc,clearkey"]),
     # options that do not decide availability but travel with every media URL (usage bits audio/video/text)
